@@ -3,11 +3,15 @@ pub struct SymbolTable { pub p: usize }
 pub struct Token { pub id: int }
 impl Token { #[verifier::external_body] pub fn start(&self) -> u32 { 0 } #[verifier::external_body] pub fn end(&self) -> u32 { 0 } }
 pub struct Expr { pub id: int }
-impl Expr { #[verifier::external_body] pub fn end(&self) -> u32 { 0 } }
+impl Expr { #[verifier::external_body] pub fn end(&self) -> u32 { 0 } #[verifier::external_body] pub fn start(&self) -> u32 { 0 } }
 pub struct Block { pub id: int, pub symbols: SymbolTable }
 impl Block { #[verifier::external_body] pub fn start(&self) -> u32 { 0 } #[verifier::external_body] pub fn end(&self) -> u32 { 0 } }
 pub struct Catch { pub id: int, pub name: Token, pub class: Option<Token>, pub block: Block, pub symbols: SymbolTable }
 impl Catch { #[verifier::external_body] pub fn start(&self) -> u32 { 0 } #[verifier::external_body] pub fn end(&self) -> u32 { 0 } }
+pub struct While { pub cond: Expr, pub body: Block }
+impl While { #[verifier::external_body] pub fn end(&self) -> u32 { 0 } }
+pub enum Else { If(Box<If>), Block(Block) }
+pub struct If { pub cond: Expr, pub body: Block, pub else_: Option<Else> }
 pub struct Return { pub value: Option<Expr>, pub t: Token }
 impl Return { #[verifier::external_body] pub fn start(&self) -> u32 { 0 } }
 pub struct Try { pub block: Block, pub catches: Vec<Catch> }
